@@ -111,9 +111,10 @@ Pop == SubSeq(stack, 1, Len(stack) - 1)
 CurAtt == LET ss == SelectSeq(stack, LAMBDA f : f.fn = "scenario") IN IF ss = <<>> THEN 0 ELSE ss[Len(ss)].att
 Ev(k, name, el, tag, raised, pos, outcome, status, undef, cid, oreal, ereal) ==
    [k |-> k, name |-> name, el |-> el, tag |-> tag, raised |-> raised, pos |-> pos, outcome |-> outcome,
-    status |-> status, undefined |-> undef, cid |-> cid, out_real |-> oreal, err_real |-> ereal, att |-> CurAtt]
+    status |-> status, undefined |-> undef, cid |-> cid, out_real |-> oreal, err_real |-> ereal, att |-> CurAtt, n |-> 0]
+\* (n: ordinal of the hook invocation in the run)
 HookEv(name, el, tag, raised, pos, instep) ==
-   Ev("hook", name, el, tag, raised, pos, "", "", FALSE, 0, ~(instep /\ cfg.cap_out), ~(instep /\ cfg.cap_err))
+   [Ev("hook", name, el, tag, raised, pos, "", "", FALSE, 0, ~(instep /\ cfg.cap_out), ~(instep /\ cfg.cap_err)) EXCEPT !.n = rt.hookN + 1]
 FmtEv(name, el, pos, status, undef) == Ev("fmt", name, el, "", FALSE, pos, "", status, undef, 0, TRUE, TRUE)
 RepEv(name, el, status) == Ev("rep", name, el, "", FALSE, 0, "", status, FALSE, 0, TRUE, TRUE)
 ClEv(cid, raised) == Ev("cleanup", "", 0, "", raised, 0, "", "", FALSE, cid, TRUE, TRUE)
@@ -165,14 +166,20 @@ SkipSteps(el) == [x \in DOMAIN stepst |-> IF IsUnder(x, el)
                                           THEN [j \in DOMAIN stepst[x] |-> IF stepst[x][j] \in {"untested", "skipped"} THEN "skipped" ELSE stepst[x][j]]
                                           ELSE stepst[x]]
 
+\* hooks that register a cleanup (P.hookcl: before_all, after_all, before_feature, before_rule, before_scenario and
+\* after_scenario each call context.add_cleanup with a function of their own): it lands in the innermost scope, the
+\* one of the element the hook belongs to; id = 500 + ordinal of the hook invocation
+HookCl(c) == IF P.hookcl THEN [c EXCEPT ![Len(c)].cls = Append(@, [id |-> 500 + rt.hookN + 1, raises |-> FALSE])] ELSE c
+
 \* ======================================================================= run_model
 BeforeAll ==
    /\ Top.fn = "run_model" /\ Top.pc = "before_all"
-   /\ IF cfg.dry THEN /\ rt' = [rt EXCEPT !.runFeature = ~rt.aborted] /\ U(evlog)
+   /\ IF cfg.dry THEN /\ rt' = [rt EXCEPT !.runFeature = ~rt.aborted] /\ U(<<evlog, ctx>>)
       ELSE /\ rt' = [RtHook(TRUE) EXCEPT !.runFeature = ~(rt.aborted \/ Raises)]
            /\ evlog' = Append(evlog, HookEv("before_all", 0, "", Raises, 0, FALSE))
+           /\ ctx' = HookCl(ctx)
    /\ stack' = SetTop([Top EXCEPT !.pc = "loop", !.i = 1])
-   /\ U(<<inputs, ret, model, ctx, cap>>)
+   /\ U(<<inputs, ret, model, cap>>)
 
 FeatureLoop ==
    /\ Top.fn = "run_model" /\ Top.pc = "loop"
@@ -196,7 +203,7 @@ FeatureRet ==
 
 AfterAll ==     \* after_all hook, root _do_cleanups (no pop), close, end
    /\ Top.fn = "run_model" /\ Top.pc = "after_all"
-   /\ LET cls == ctx[1].cls
+   /\ LET cls == IF cfg.dry THEN ctx[1].cls ELSE HookCl(ctx)[1].cls      \* (a cleanup registered by after_all itself still runs)
           tailEv == ClEvents(cls) \o <<FmtEv("close", 0, 0, "", FALSE), RepEv("end", 0, "")>> IN
       IF cfg.dry THEN /\ rt' = [rt EXCEPT !.rootClFailed = AnyRaises(cls), !.done = TRUE]
                       /\ evlog' = evlog \o tailEv
@@ -245,7 +252,8 @@ CBeforeHook ==
       /\ LET hf == hookFailed'[el] IN
          stack' = SetTop([Top EXCEPT !.fc = IF hf THEN Top.fc + 1 ELSE Top.fc,
                                       !.su = hf \/ rt.aborted, !.sr = ~shouldSkip'[el], !.pc = "announce"])
-   /\ U(<<inputs, ret, forced, ctx, cap>>)
+   /\ ctx' = HookCl(ctx)
+   /\ U(<<inputs, ret, forced, cap>>)
 
 CAnnounce ==
    /\ Top.fn = "container" /\ Top.pc = "announce"
@@ -365,7 +373,8 @@ SBeforeHook ==
       /\ LET hf == hookFailed'[el] IN
          stack' = SetTop([Top EXCEPT !.failed = hf, !.su = hf \/ rt.aborted, !.sr = ~shouldSkip'[el],
                                       !.rs = ~shouldSkip'[el] /\ ~cfg.dry, !.pc = "announce"])
-   /\ U(<<inputs, ret, forced, ctx, cap>>)
+   /\ ctx' = HookCl(ctx)
+   /\ U(<<inputs, ret, forced, cap>>)
 SAnnounce ==    \* formatter.scenario, setup_capture (fresh buffers), formatter.step*
    /\ Top.fn = "scenario" /\ Top.pc = "announce"
    /\ LET el == Top.el
@@ -413,7 +422,8 @@ SAfterHook ==
       /\ evlog' = Append(evlog, HookEv("after_scenario", el, "", Raises, 0, FALSE))
       /\ hookFailed' = IF Raises THEN [hookFailed EXCEPT ![el] = TRUE] ELSE hookFailed
       /\ stack' = SetTop([Top EXCEPT !.pc = "atag", !.i = 1])
-   /\ U(<<inputs, ret, stepst, forced, shouldSkip, ctx, cap>>)
+   /\ ctx' = HookCl(ctx)
+   /\ U(<<inputs, ret, stepst, forced, shouldSkip, cap>>)
 SAfterTag ==
    /\ Top.fn = "scenario" /\ Top.pc = "atag"
    /\ LET el == Top.el IN
@@ -503,9 +513,11 @@ StBody ==       \* match.run: converter error, or the body with its outcome
                 U(<<rt, shouldSkip, stepst>>)
              ELSE
                 /\ rt' = [rt EXCEPT !.aborted = @ \/ o = "kbd"]
-                /\ shouldSkip' = IF o = "skip" THEN [shouldSkip EXCEPT ![el] = TRUE] ELSE shouldSkip
-                /\ stepst' = IF o = "skip"
-                             THEN [stepst EXCEPT ![el] = [j \in DOMAIN stepst[el] |-> IF stepst[el][j] \in {"untested", "skipped"} THEN "skipped" ELSE stepst[el][j]]]
+                \* "skip": the body calls scenario.skip(); "skip_fail": it does so and then fails an assertion (the step has failed)
+                /\ shouldSkip' = IF o \in {"skip", "skip_fail"} THEN [shouldSkip EXCEPT ![el] = TRUE] ELSE shouldSkip
+                /\ stepst' = IF o \in {"skip", "skip_fail"}
+                             THEN [stepst EXCEPT ![el] = [j \in DOMAIN stepst[el] |-> IF j = k /\ o = "skip_fail" THEN "failed"
+                                                                                     ELSE IF stepst[el][j] \in {"untested", "skipped"} THEN "skipped" ELSE stepst[el][j]]]
                              ELSE [stepst EXCEPT ![el][k] = CASE o = "pass" -> "passed" [] o = "fail" -> "failed" [] o \in {"error", "kbd"} -> "error"
                                                                 [] o = "pending" -> (IF Wip(el) THEN "pending_warn" ELSE "pending")]
    /\ LET s == Steps(Top.el)[Top.i]
